@@ -70,6 +70,10 @@ def to_case(o):
         return "CMapSeq %s" % t3(o["h"])
     if k == "mapconc":
         return "CMapConc %s %s" % (t3(o["h"]), t3(sorted({tuple(x) for x in o["c"]})))
+    if k == "info":
+        return "CInfo %s" % lst("(%d, %d, %d, %d, %d, %s, %s)" % (r["stmode"], r["osmode"], r["attrmode"], r["dev"], r["ino"],
+                                                                   lst(str(x) for x in r["types"]), lst(str(x) for x in r["paths"]))
+                                for r in (o["rows"] or []))
     if k == "fsconc":
         return "CFsConc %s" % lst("(%s, %d)" % (coq_string(n), p) for n, p in sorted({(x["name"], x["path"]) for x in (o["obs"] or [])}))
     raise ValueError(k)
@@ -80,6 +84,7 @@ HEADER = ("From P9V Require Import Base.Str Fsx.Readdir Fsx.QidMap Fsx.Qid Fsx.M
 
 TESTS = (
     ("fsimpl/localfs", "^TestVerifC20Local$", ["vh_fs_common_test.go", "c20_qid_test.go"]),
+    ("fsimpl/localfs", "^TestVerifC20Info$", ["vh_fs_common_test.go", "c20_info_test.go"]),
     ("p9", "^TestVerifC20Mode$", ["vh_common_test.go", "c20_mode_test.go"]),
     ("fsimpl/qids", "^TestVerifC20Mapper$", ["vh_fs_common_test.go", "c20_mapper_test.go"]),
     ("fsimpl/composefs", "^TestVerifC20FsConc$", ["vh_fs_common_test.go", "c20_conc_test.go"]),
@@ -98,6 +103,8 @@ def summarize(o):
         return {"kind": k, "type": oct(o["t"]), "rows": len(o["rows"])}
     if k == "fromos":
         return {"kind": k, "rows": len(o["rows"])}
+    if k == "info":
+        return {"kind": k, "dir": o.get("dir"), "files": [(r["name"], oct(r["stmode"]), r["types"]) for r in (o["rows"] or [])]}
     return {"kind": k, "observations": len(o.get("obs") or [])}
 
 
@@ -114,6 +121,10 @@ def witness(o):
             if r in byv and byv[r] != (a, b):
                 return {"two_keys_one_path": {"path": r, "keys": [list(byv[r]), [a, b]]}}
             byv[r] = (a, b)
+    if k == "info":
+        return "CInfo %s" % lst("(%d, %d, %d, %d, %d, %s, %s)" % (r["stmode"], r["osmode"], r["attrmode"], r["dev"], r["ino"],
+                                                                   lst(str(x) for x in r["types"]), lst(str(x) for x in r["paths"]))
+                                for r in (o["rows"] or []))
     if k == "fsconc":
         byk, byv = {}, {}
         for x in o["obs"]:
@@ -124,6 +135,13 @@ def witness(o):
             if p in byv and byv[p] != n:
                 return {"two_names_one_path": {"path": p, "names": [byv[p], n]}}
             byv[p] = n
+    if k == "info":
+        tab = {0o040000: 128, 0o140000: 64, 0o010000: 64, 0o020000: 64, 0o120000: 2}
+        for r in o["rows"]:
+            want = tab.get(r["attrmode"] & 0o170000, 0)
+            if any(t not in (999, want) for t in r["types"]) or len({p for p in r["paths"] if p != 999}) > 1:
+                return {"file": r["name"], "st_mode": oct(r["stmode"]), "expected_qid_type": want,
+                        "qid_types[info,walk,getattr,readdir,open]": r["types"], "qid_paths": r["paths"]}
     if k == "modes":
         for p, (os_, back, qt) in enumerate(o["rows"]):
             if back != (o["t"] | p):
@@ -182,7 +200,7 @@ def run(ctx):
     rebuild_if_make_flaked(ctx)
     obs = []
     from concurrent.futures import ThreadPoolExecutor
-    with ThreadPoolExecutor(max_workers=4) as ex:
+    with ThreadPoolExecutor(max_workers=5) as ex:
         futs = [ex.submit(ctx.gotest, pkg, test, files, None, 1200) for pkg, test, files in TESTS]
         results = [f.result() for f in futs]
     for (pkg, test, files), (rc, out, o) in zip(TESTS, results):
